@@ -63,10 +63,20 @@ FRONTS = {'none': [], 'addi8': [progs.I('addi', rd=8, rs1=8, imm=1)], 'li1': [L.
 def s2_tasks(tier):
     ts = [dict(n=n, fronts=list(FRONTS), second=[None, 1, 2, 3, 4, 8]) for n in GRID_N]
     ts.append(dict(n=1 << 20, fronts=['none', 'addi8'], second=[None, 4], rmax=3))
+    # data-size family: every data item kind (alone and in pairs) in front of every alignment
+    for i in range(len(progs.DATA_ALL)):
+        ts.append(dict(kind='datasize', i=i))
     return ts
 
 
 def s2_programs(task):
+    if task.get('kind') == 'datasize':
+        d = progs.DATA_ALL[task['i']][1](None)
+        for d2 in [None] + [x[1](None) for x in progs.DATA_ALL]:
+            for n in (2, 3, 4, 8, 16):
+                for fr in ('none', 'addi8'):
+                    yield list(FRONTS[fr]) + [d] + ([d2] if d2 else []) + [L.align(n), L.label('A'), progs.I('add', rd=5, rs1=6, rs2=7)]
+        return
     n = task['n']
     for r in range(min(n, task.get('rmax', 32))):
         for fr in task['fronts']:
@@ -77,7 +87,7 @@ def s2_programs(task):
 
 def describe(tier):
     return ('S1: all item sequences of <= %d lines over the alphabet (every item kind); grid: N in {1..17, 32, 64, 100, 256, 4096, 2^20} x every residue r < min(N, 32) '
-            'x {nothing, compressible instruction, short li} in front x second align M in {none, 1, 2, 3, 4, 8}' % depth(tier))
+            'x {nothing, compressible instruction, short li} in front x second align M in {none, 1, 2, 3, 4, 8}; data-size family: %d data item kinds alone and in all pairs x align 2/3/4/8/16 x 2 fronts' % (depth(tier), len(progs.DATA_ALL)))
 
 
 NEEDS_FILES = True      # include_bytes items: every worker works inside its own scratch directory
